@@ -253,9 +253,7 @@ fn release_action_mappings(state: &mut State) -> Vec<Event> {
   events
 }
 
-fn add_new_mapping(state: &mut State, new_key: &KeyCode, m: &Mapping) -> StepResult {
-  let mut events: Vec<Event> = Vec::new();
-  
+fn consume_pass_through_keys(state: &mut State, m: &Mapping, events: &mut Vec<Event>) {
   let pass_through_keys = &mut state.pass_through_keys;
   let mapped_output_keys = &mut state.mapped_output_keys;
   
@@ -274,6 +272,12 @@ fn add_new_mapping(state: &mut State, new_key: &KeyCode, m: &Mapping) -> StepRes
       true
     }
   });
+}
+
+fn add_new_mapping(state: &mut State, new_key: &KeyCode, m: &Mapping) -> StepResult {
+  let mut events: Vec<Event> = Vec::new();
+  
+  consume_pass_through_keys(state, m, &mut events);
   
   if is_action_mapping(m) {
     events.append(&mut release_action_mappings(state));
@@ -285,6 +289,9 @@ fn add_new_mapping(state: &mut State, new_key: &KeyCode, m: &Mapping) -> StepRes
     };
     if should_absorb {
       events.append(&mut release_absorbed_keys(state));
+      // Dropping an absorbed mapping may have handed one of its output keys back
+      // to pass-through; if the new mapping consumes that key, consume it now.
+      consume_pass_through_keys(state, m, &mut events);
     }
   }
   
